@@ -1,5 +1,6 @@
 import DvidModel.Model.FileLog
 import DvidModel.Model.Ids
+import DvidModel.Gen.Fixes
 /-
   C04 — A crash at any write point is recoverable and loses no acknowledged work.
   Proved here: the append-only log part — the reader yields exactly the records that were completely
@@ -125,5 +126,8 @@ example : Rec.WF ⟨7, [1, 2, 3]⟩ ∧ (6 : Nat) < (encode ⟨7, [1, 2, 3]⟩).
   constructor
   · constructor <;> decide
   · decide
+
+/-- the repaired shape of the store opening is present: files left empty by a kill during their creation are removed -/
+theorem repaired_shape_present : Gen.badgerRemovesEmptyLogFiles = true := by decide
 
 end Dvid.Props.C04
